@@ -26,6 +26,11 @@ func volumeVariants() []treeVariant {
 		{"externalLabels", map[string]any{"external": true, "labels": map[string]any{"a": "b"}}},
 		{"externalOpts", map[string]any{"external": true, "name": "n", "driver_opts": map[string]any{}}},
 		{"externalX", map[string]any{"external": true, "x": 1}},
+		// not yet cast (SkipInterpolation): the YAML 1.1 words and quoted text arrive as strings
+		{"externalYesDriver", map[string]any{"external": "yes", "driver": "local"}},
+		{"externalOnLabels", map[string]any{"external": "On", "labels": map[string]any{"a": "b"}}},
+		{"externalNoDriver", map[string]any{"external": "No", "driver": "local"}},
+		{"externalQuotedTrueName", map[string]any{"external": "true", "name": "n"}},
 	}
 }
 
@@ -74,6 +79,39 @@ func watchVariants() []treeVariant {
 	}
 }
 
+// externalSpellings: what `external` can be when the validation stage sees it.  With interpolation on, the cast table has
+// turned every string into a bool (or failed); with SkipInterpolation the tree holds whatever yaml.v3 decoded: a bool for
+// the YAML 1.2 spellings, a *string* for the YAML 1.1 ones (yes / on / y / no / off / n in any case), for quoted text, and
+// for anything else the schema admits as a string.
+var externalSpellings = []struct {
+	v    any
+	kind string // "true" | "false" | "invalid"
+}{
+	{true, "true"}, {false, "false"},
+	{"true", "true"}, {"True", "true"}, {"TRUE", "true"}, {"yes", "true"}, {"Yes", "true"}, {"YES", "true"}, {"on", "true"}, {"On", "true"}, {"ON", "true"}, {"y", "true"}, {"Y", "true"}, {"yEs", "true"},
+	{"false", "false"}, {"False", "false"}, {"FALSE", "false"}, {"no", "false"}, {"No", "false"}, {"NO", "false"}, {"off", "false"}, {"Off", "false"}, {"OFF", "false"}, {"n", "false"}, {"N", "false"},
+	{"", "invalid"}, {"1", "invalid"}, {"0", "invalid"}, {"t", "invalid"}, {"T", "invalid"}, {"f", "invalid"}, {"maybe", "invalid"}, {"yes ", "invalid"}, {" on", "invalid"}, {"tru", "invalid"}, {"oui", "invalid"}, {"${V}", "invalid"},
+}
+
+// externalCompanions: what stands next to `external` in the resource (the keys checkExternal tolerates, and the ones it does not)
+func externalCompanions() []treeVariant {
+	return []treeVariant{
+		{"alone", map[string]any{}},
+		{"name", map[string]any{"name": "n"}},
+		{"ext", map[string]any{"x-foo": 1, "#extensions": map[string]any{"x-foo": 1}}},
+		{"driver", map[string]any{"driver": "local"}},
+		{"driver_opts", map[string]any{"name": "n", "driver_opts": map[string]any{"o": "v"}}},
+		{"labels", map[string]any{"labels": map[string]any{"a": "b"}}},
+		{"other", map[string]any{"x": 1}},
+	}
+}
+
+func withExternal(companion any, ext any) map[string]any {
+	m := core.DeepCopyVal(companion).(map[string]any)
+	m["external"] = ext
+	return m
+}
+
 func treeArgs(t map[string]any) any { return map[string]any{"tree": core.EncodeVal(t)} }
 
 func pickTV(r *rand.Rand, l []treeVariant) any { return core.DeepCopyVal(l[r.Intn(len(l))].v) }
@@ -84,7 +122,13 @@ func randomValidateTree(r *rand.Rand, malformed bool) map[string]any {
 	if r.Intn(4) != 0 {
 		m := map[string]any{}
 		for i := 0; i < r.Intn(3); i++ {
-			m[names[r.Intn(len(names))]] = pickTV(r, volumeVariants())
+			v := pickTV(r, volumeVariants())
+			if vm, ok := v.(map[string]any); ok && r.Intn(3) == 0 {
+				if _, has := vm["external"]; has {
+					vm["external"] = externalSpellings[r.Intn(len(externalSpellings))].v
+				}
+			}
+			m[names[r.Intn(len(names))]] = v
 		}
 		t["volumes"] = m
 	}
@@ -196,6 +240,19 @@ func runC10Tree(ctx *core.Ctx) {
 				"gpus":    []any{core.DeepCopyVal(v.v)},
 				"deploy":  map[string]any{"resources": map[string]any{"reservations": map[string]any{"devices": []any{core.DeepCopyVal(v.v)}}}},
 			}}}))
+		}
+	}
+	// `external` in every spelling the validation stage can meet (cast or not yet cast) × every companion, in the three sections
+	for _, sp := range externalSpellings {
+		for _, c := range externalCompanions() {
+			ctx.Count("tree:external-spelling:" + sp.kind)
+			ctx.Add("c10.validate", treeArgs(map[string]any{"volumes": map[string]any{"v": withExternal(c.v, sp.v)}}))
+		}
+		for _, sec := range []string{"configs", "secrets"} {
+			for _, c := range []treeVariant{{"alone", map[string]any{}}, {"file", map[string]any{"file": "./f"}}, {"fileEnv", map[string]any{"file": "./f", "environment": "E"}}, {"name", map[string]any{"name": "n"}}} {
+				ctx.Count("tree:external-spelling:" + sec)
+				ctx.Add("c10.validate", treeArgs(map[string]any{sec: map[string]any{"o": withExternal(c.v, sp.v)}}))
+			}
 		}
 	}
 	// every node kind at every checked path (the checkers' unchecked assertions)
